@@ -19,7 +19,12 @@ COEFFS = (0.0, 0.3, 0.6, 1.0)
 
 
 def configs(tier, seed):
-    return zoo.system_configs(seed, tier, all_convs=(tier == "thorough"), derived_metrics=True)
+    if tier == "quick":
+        return zoo.system_configs(seed, tier, all_convs=False, derived_metrics=True)
+    out = []
+    for sd in (seed, seed + 3, seed + 5):  # three parameter variants of every lattice
+        out += zoo.system_configs(sd, tier, all_convs=True, derived_metrics=True)
+    return out
 
 
 def target_cov(case, q):
